@@ -12,7 +12,7 @@ use std::collections::HashSet;
 use crate::core::cell_info::get_num_children;
 use crate::core::serialization::{
     cell_to_children, cell_to_parent, get_resolution, get_stride, is_first_child,
-    FIRST_HILBERT_RESOLUTION,
+    FIRST_HILBERT_RESOLUTION, MAX_RESOLUTION,
 };
 
 /// Expands a set of A5 cells to a target resolution by generating all descendant cells.
@@ -30,14 +30,21 @@ use crate::core::serialization::{
 ///
 /// Returns an error if any cell is at a resolution higher than the target resolution
 pub fn uncompact(cells: &[u64], target_resolution: i32) -> Result<Vec<u64>, String> {
+    if target_resolution >= MAX_RESOLUTION {
+        return Err(format!(
+            "Target resolution ({}) exceeds maximum resolution ({})",
+            target_resolution,
+            MAX_RESOLUTION - 1
+        ));
+    }
+
     // First calculate how much space is needed
     let mut n = 0;
     let mut resolutions = Vec::with_capacity(cells.len());
 
     for &cell in cells {
         let resolution = get_resolution(cell);
-        let resolution_diff = target_resolution - resolution;
-        if resolution_diff < 0 {
+        if resolution > target_resolution {
             return Err(format!(
                 "Cannot uncompact cell at resolution {} to lower resolution {}",
                 resolution, target_resolution
@@ -56,7 +63,8 @@ pub fn uncompact(cells: &[u64], target_resolution: i32) -> Result<Vec<u64>, Stri
         let num_children = get_num_children(resolution, target_resolution);
 
         if num_children == 1 {
-            result.push(cell);
+            // Already at the target resolution, keep the cell (in canonical form)
+            result.push(cell_to_parent(cell, Some(resolution))?);
         } else {
             let children = cell_to_children(cell, Some(target_resolution))?;
             result.extend(children);
